@@ -19,7 +19,7 @@ CHECKS = {
  "C04": dict(tech="static analysis: extraction of the Pratt parser's parameter set (AST + go/types + SSA patterns) compared with the precedence relation of the property + write-target provenance (W) under the Compile/Parse roots",
    text="For the language's token set the extracted parameters determine the parse of every operator chain, so the comparison covers all ordered operator pairs/triples at once. Representation changes of the tables make the extraction fail ('anchor lost') rather than pass. The optimize-time re-association of paths/predicates/groups is not decided. The parse is a function of the text (W under Compile: no state between parses).",
    ref="DESIGN.md §3 PRATT; §4 C04 (W)"),
- "C10": dict(tech="static analysis: SEQ confinement, FIN over every float-returning built-in and every float boxed under Eval, MARSHAL structural rules",
+ "C10": dict(tech="static analysis: SEQ confinement, FIN over every float-returning built-in and every float boxed under Eval, MARSHAL structural rules, flow of boxed reflect.Value handles into results (BOXVAL)",
    text="No internal type or non-finite number can become (part of) a result through the enumerated sinks; callables marshal as \"\"; built-in result types are JSON-closed; ErrUndefined has one producer under the !IsValid edge; EvalBytes is decode->Eval->encode with both errors checked. Deep JSON closure of arbitrary nested values is not decided.",
    ref="DESIGN.md §3 SEQ, FIN, MARSHAL; §4 C10"),
  "C11": dict(tech="static analysis: table comparison (escape table vs RFC 8259, keyword table, array-literal case) on AST + go/types; value-flow identity rule for literals on go/ssa (LIT); W under Compile and on the literal evaluators",
@@ -31,6 +31,12 @@ CHECKS = {
  "C13": dict(tech="static analysis: who-may-call rule for sort functions under Eval, comparator strictness and slice freshness on go/ssa, merge-step shape (MERGE)",
    text="Stability-relevant structure for all inputs: only stable sorts, strict comparators, fresh slices, and a merge step that prefers the left run on ties. Sampled tests cannot see an unstable sort below 12 items. Ordering/permutation/error clauses as values are not decided.",
    ref="DESIGN.md §3 SORT; §4 C13"),
+ "C14": dict(tech="static analysis: map-store discipline in groupItemsByKey on go/ssa (GROUP: comma-ok lookup of the same key dominates every store, absent edge or same-pair test; string key by construction), traversal-shape rule (COVER) and write-target provenance (W) restricted to the object machinery",
+   text="Thin: necessary conditions of the object model that are visible in the code — a second pair producing an existing key reaches the duplicate-key error rather than overwriting, non-string keys reach the illegal-key error, the object functions traverse every member once, and nothing in the object machinery keeps state. The partition law, value evaluation over a group, $merge precedence and $lookup = field selection are value-level and not decided.",
+   ref="DESIGN.md §3 GROUP, COVER, W; §5"),
+ "C17": dict(tech="static analysis: writer/reader agreement of the match object's member names (KEYS), API-use rules for the regexp engine (all submatch indexes; Compile of the token text with the error tested), must-pass-through of checkMatchRanges before slicing, W restricted to the regex machinery",
+   text="Thin: necessary conditions of the regex functions that are visible in the code. Agreement of offsets, groups and $N expansion with RE2 as values, flags and limits are not decided.",
+   ref="DESIGN.md §3 KEYS, BND, W; §5"),
  "C15": dict(tech="static analysis: write-target provenance (W) restricted to the array/higher-order/aggregate built-ins, traversal-shape rule (COVER), interface-keyed map / printed-identity rule (HASH), FIN on the aggregates",
    text="The array, higher-order and aggregate built-ins build their results in memory of their own (no append into an argument's spare capacity, no in-place reversal), traverse the whole container in order (start at the first member, step one, bounded by the same container's length; reviewed exceptions for $reduce and $zip), $distinct's identity test cannot panic or conflate values by printed form, and the aggregates cannot return a non-finite number. Fold direction, permutation and the other definitional clauses as values are not decided.",
    ref="DESIGN.md §3 HASH, FIN; §4 C15, W, COVER"),
@@ -49,9 +55,9 @@ CHECKS = {
  "C08": dict(tech="static analysis: error-provenance dataflow in jparse (ERR), abstract interpretation of the lexer over a finite cursor/width-typestate/first-rune domain (LEX), loop-variant classification and recursion inventory under Compile (LOOP/REC), registration-vs-switch exhaustiveness and explicit-panic inventory (TAB/PANIC), MustCompile/Compile/Parse shape rules; native index/slice bounds (BND: the Go compiler's prove pass asked via -d=ssa/check_bce on the current tree, then a difference-constraint prover, then reviewed one-site exceptions); unchecked type assertions (TA)",
    text="The panic and hang classes of Compile that are visible in the shape of the code, for every input string: only *jparse.Error values with declared types leave the parser, the lexer never rewinds by a stale width and never returns an empty non-EOF token (for every first rune), every loop under Compile consumes a token/rune per cycle or has a counted/range variant, the 'unexpected ...' panics are unreachable. Runtime index/slice panics (e.g. the signature parser on an unmatched bracket) and stack depth are NOT decided, and the level note says so. BND/TA: no index, slice or type-assertion panic under Compile outside the reviewed invariants.",
    ref="DESIGN.md §3 ERR, LEX, LOOP, TAB; §4 C08, BND, TA"),
- "C09": dict(tech="static analysis: NF dataflow over all of reach(Eval), dispatch exhaustiveness (TAB), explicit-panic inventory, loop-variant classification and recursion inventory (LOOP/REC), dominating guards (GUARD), interface-keyed map rule (HASH); reflect.Value.Index bounds (IDX); native index/slice bounds (BND: compiler prove pass via -d=ssa/check_bce + difference-constraint prover + reviewed one-site exceptions); unchecked type assertions (TA); read-only struct-field values (RO); nil reflect.Type (NILTYPE); reflective stores that could make a value cyclic (ACYC); interprocedural kind-set dataflow for the preconditions of reflect.Value methods (KIND)",
+ "C09": dict(tech="static analysis: NF dataflow over all of reach(Eval), dispatch exhaustiveness (TAB), explicit-panic inventory, loop-variant classification and recursion inventory (LOOP/REC), dominating guards (GUARD), interface-keyed map rule (HASH); reflect.Value.Index bounds (IDX); native index/slice bounds (BND: compiler prove pass via -d=ssa/check_bce + difference-constraint prover + reviewed one-site exceptions); unchecked type assertions (TA); read-only struct-field values (RO); nil reflect.Type (NILTYPE); reflective stores that could make a value cyclic (ACYC); interprocedural kind-set dataflow for the preconditions of reflect.Value methods (KIND); synthesised zero values only for types that tolerate them (ZERO)",
    text="The crash and hang classes that are visible in the shape of the code, decided for every program and input over the module call graph under Eval: unresolved reflect accessors, missing dispatch cases, loops without a variant, unguarded integer division / radix / repeat count, unhashable map keys. The remaining panic classes (type assertions, Set on zero Values, nil interfaces, stack depth) are not decided and are listed as such. Added classes: index/slice bounds (IDX, BND), unchecked type assertions (TA), values of unexported struct fields used as data (RO), methods on reflect.TypeOf(nil) (NILTYPE), kind/validity preconditions of reflect.Value methods (KIND), and cycle creation through reflection (ACYC; the transform's update store is a known finding: `$count(($ ~> |$|{\"self\":$}|).**)` does not return).",
-   ref="DESIGN.md §3 NF, TAB, LOOP, GUARD, HASH; §4 C09, IDX, BND, TA, RO, NILTYPE, ACYC, KIND"),
+   ref="DESIGN.md §3 NF, TAB, LOOP, GUARD, HASH; §4 C09, IDX, BND, TA, RO, NILTYPE, ZERO, ACYC, KIND"),
  "C18": dict(tech="static analysis: loop-variant classification incl. positive multiplicative scaling (LOOP class M), FIN on the number built-ins, radix/repeat guards (GUARD) + W restricted to the number built-ins",
    text="Termination of every loop under the number formatting functions (the clause behind the $formatNumber hang), finiteness of $power/$sqrt/$round results, and the exact [2,36] radix guard. Rounding, shortest form and picture rendering are value-level and not decided. A purity clause (write-target provenance W restricted to the property's functions) excludes caches and other state between calls.",
    ref="DESIGN.md §3 LOOP, FIN, GUARD; §4 C18, W"),
@@ -64,8 +70,6 @@ CHECKS = {
 }
 
 NA = {
- "C14": "grouping is a partition law and the object-function clauses are algebraic identities over runtime objects; no structural clause that is a genuine necessary condition could be named (DESIGN.md §5)",
- "C17": "agreement of offsets, groups and $N expansion with the RE2 engine for all patterns/subjects is a relation over runtime strings; no sound static argument in reach (DESIGN.md §5)",
 }
 PENDING = "check under construction in this session (engine not finished yet); see DESIGN.md §4"
 
